@@ -1299,6 +1299,17 @@ func (h *v7Harness) stats() {
 			break
 		}
 	}
+	// which variants of the probed functions the tree has (the check expects the repaired ones)
+	if c.stopEarliest {
+		h.out.Count("variant_findstop_earliest")
+	} else {
+		h.out.Count("variant_findstop_first_listed")
+	}
+	if c.crCounted {
+		h.out.Count("variant_canresume_counted")
+	} else {
+		h.out.Count("variant_canresume_uncounted")
+	}
 }
 
 // v7Announce overwrites <VERIF_OUT>/current.txt with the history that is running.
